@@ -17,6 +17,9 @@ pub enum Op {
     Coupon { row: u16, col: u8 },
     /// exact arrival simulation up to cardinality 2^(lg_n_x16 / 16)
     Sim { lg_n_x16: u16, seed: u64, warp: bool, dups: bool, swaps: bool },
+    /// the u128 item whose MurmurHash3 digest under the case's seed is (h1, h2), offered through update():
+    /// row bits and every leading-zero count of h2 (column 0..63, h2 = 0) at will
+    Digest { h1: u64, h2: u64 },
 }
 
 #[derive(Debug, Clone, Serialize, Deserialize)]
@@ -46,6 +49,11 @@ pub fn op_strategy() -> impl Strategy<Value = Op> {
         10 => (any::<u16>(), col_strategy()).prop_map(|(row, col)| Op::Coupon { row, col }),
         3 => (0u16..=960, any::<u64>(), proptest::bool::weighted(0.3), proptest::bool::weighted(0.3), proptest::bool::weighted(0.3))
             .prop_map(|(lg_n_x16, seed, warp, dups, swaps)| Op::Sim { lg_n_x16, seed, warp, dups, swaps }),
+        4 => (any::<u64>(), col_strategy(), any::<u64>()).prop_map(|(h1, col, r)| {
+            // h2 with exactly `col` leading zeros; col 63: 63 or 64 (h2 = 1 or 0)
+            let h2 = if col >= 63 { r & 1 } else { ((1u64 << 63) | (r >> 1)) >> col };
+            Op::Digest { h1, h2 }
+        }),
     ]
 }
 
@@ -95,6 +103,7 @@ pub fn expand(op: &Op, lg_k: u8, seed: u64, out: &mut Vec<u32>) {
             }
             out.push(rc);
         }
+        Op::Digest { h1, h2 } => out.push(refhash::cpc_row_col(&refhash::murmur3_preimage16(*h1, *h2, seed), seed, lg_k)),
         Op::Sim { lg_n_x16, seed: s, warp, dups, swaps } => {
             let n = (*lg_n_x16 as f64 / 16.0).exp2();
             let mut sm = SplitMix(*s ^ 0x51);
@@ -245,7 +254,7 @@ pub fn run_case(c: &Case, info: &mut CaseInfo) -> Result<(), Fail> {
     for (i, op) in c.ops.iter().enumerate() {
         let mut cs = vec![];
         expand(op, lg_k, c.seed, &mut cs);
-        let hashed = matches!(op, Op::Key(_) | Op::Burst { .. });
+        let hashed = matches!(op, Op::Key(_) | Op::Burst { .. } | Op::Digest { .. });
         // hashed ops go through the public update() in one piece
         if hashed {
             match op {
@@ -256,6 +265,7 @@ pub fn run_case(c: &Case, info: &mut CaseInfo) -> Result<(), Fail> {
                         sk.update(sm.next());
                     }
                 }
+                Op::Digest { h1, h2 } => sk.update(refhash::u128_item_for(*h1, *h2, c.seed)),
                 _ => unreachable!(),
             }
             for &rc in &cs {
